@@ -26,6 +26,28 @@ import (
 
 var props = map[string]*harness.Prop{}
 
+// wovenBuild is set by harness/woven/b2_test.go when this package is built as
+// the woven engine (B2); activateWoven then turns the woven yields on for a run.
+var (
+	wovenBuild      bool
+	activateWoven   func(c *harness.Ctx, label string)
+	deactivateWoven func()
+)
+
+// maybeWoven enables statement-level preemption when running on the B2 build.
+func maybeWoven(c *harness.Ctx) func() {
+	if !wovenBuild {
+		return func() {}
+	}
+	activateWoven(c, "b2")
+	c.S.MaxSteps *= 5
+	c.Feature("woven-yields-active")
+	// tasks still unwind through woven code during teardown: switch the
+	// runtime off only afterwards
+	c.AtEnd(deactivateWoven)
+	return func() {}
+}
+
 type linkT = simnet.Link
 
 func register(p *harness.Prop) {
